@@ -198,6 +198,18 @@ def inputs(ctx):
             for doubled in (False, True):
                 ins.append({"id": "c%d" % n, "lines": lines, "doubled": doubled})
                 n += 1
+    # a programme that starts with the very first frame (the first caption then starts at 0): its rows
+    # are measured like any other
+    for lens in ([34], [10, 36], [33, 10], [20]):
+        for paint in (False, True):
+            lines = roll_stream(rng, lens, 2, paint=paint)
+            f0 = 0
+            for ln in lines:
+                ln["tc"] = _tc(f0)
+                f0 += 150
+            for doubled in (False, True):
+                ins.append({"id": "z%d" % n, "lines": lines, "doubled": doubled})
+                n += 1
     # what one document's scan found must not reach the next read in the same process: a screen whose
     # short piece is followed by a piece with a long line (refused), then a document that holds only
     # the short piece (fine) - and the other way round
